@@ -22,4 +22,40 @@ PROPS = {
             "thorough": [dict(test="TestC16Deadliner", checks=400000, shards=16, timeout=1500)],
         },
     ),
+    "C02": dict(
+        kind="ext", pkg="./qbft", level="exploration", engine="qbftsim",
+        technique="property-based schedule and adversary search (rapid + synctest) over the production qbft.Run state machine; history invariant: agreement",
+        level_text="Randomly generated schedules (deliver/drop/duplicate/timer/late start) and Byzantine message templates against n real qbft.Run processes; "
+                   "the oracle is the agreement invariant over all Decide calls. Search, not proof: it samples schedules and adversaries, with template acceptance rates reported.",
+        level_note="Sources are authenticated by the transport (property C05); the adversary is limited to its own identities plus observed honest messages as justifications; "
+                   "values/instances are int64 stand-ins for hashes/duties; Compare is the production default (nil).",
+        runs={
+            "quick": [dict(test="TestQBFTRandom", checks=12000, shards=4, env={"VERIF_ORACLE": "C02"})],
+            "thorough": [dict(test="TestQBFTRandom", checks=150000, shards=16, timeout=3000, env={"VERIF_ORACLE": "C02", "VERIF_MAXEV": 1200})],
+        },
+    ),
+    "C03": dict(
+        kind="ext", pkg="./qbft", level="exploration", engine="qbftsim",
+        technique="property-based schedule and adversary search (rapid + synctest) over the production qbft.Run state machine; history invariant: validity/integrity of every Decide",
+        level_text="Same generated runs as C02; the oracle checks every Decide call: at most one per process, non-zero, proposed by a designated leader "
+                   "(an input value when nobody is Byzantine), backed by a quorum of distinct matching COMMITs that honest sources really sent.",
+        level_note="As C02. 'Backed by' is read as: the qcommit argument contains a quorum of distinct-source COMMITs for the decided round and value (extra entries an adversary padded in are tolerated).",
+        runs={
+            "quick": [dict(test="TestQBFTRandom", checks=12000, shards=4, env={"VERIF_ORACLE": "C03"})],
+            "thorough": [dict(test="TestQBFTRandom", checks=150000, shards=16, timeout=3000, env={"VERIF_ORACLE": "C03", "VERIF_MAXEV": 1200})],
+        },
+    ),
+    "C04": dict(
+        kind="ext", pkg="./qbft", level="fault_enumeration", engine="qbftsim",
+        technique="property-based fault injection (rapid + synctest virtual time): generated fault plans (silent / late / crash at time / crash inside k-th broadcast after a recipient subset) and latencies against production qbft.Run with production round timers",
+        level_text="Generated fault plans and latency patterns on virtual time with the production round timer; oracle: every non-faulty member decides, "
+                   "in a round <= R_fault + n, no honest message is rejected as unjust, agreement and validity hold. Fault enumeration because the quantifier is over crash points and fault sets; "
+                   "the quick tier samples them, the thorough tier enumerates the (member, broadcast index, recipient subset) grid for n=4 and n=7.",
+        level_note="Termination and the rotation bound are asserted for the timer GetRoundTimerFunc selects under the default feature set; opt-in timers only for safety/no-unjust (stalls reported as observations). "
+                   "Leader rotation is the formula of core/consensus/qbft.leader re-stated in the harness. One open finding (eager_timer_split_doubling) is excluded by signature.",
+        runs={
+            "quick": [dict(test="TestC04Random", checks=15000, shards=4), dict(test="TestC04KnownFinding", checks=3)],
+            "thorough": [dict(test="TestC04Random", checks=100000, shards=16, timeout=3000), dict(test="TestC04KnownFinding", checks=3)],
+        },
+    ),
 }
